@@ -1,6 +1,7 @@
 import Drivers.Proto
 import St4sd.Model.Repeat
 import St4sd.Model.RepeatSub
+import St4sd.Model.RepeatDir
 /-! Model driver for property C13 (repeating-engine poll protocol). -/
 open Lean Proto St4sd.Repeat St4sd.RepeatSub
 
@@ -30,7 +31,7 @@ def parseEv (s : String) : Except String Ev :=
 
 def parseOutcome (s : String) : Except String Outcome :=
   match s with
-  | "ok" => pure .ok | "fail" => pure .fail | "raise" => pure .raised
+  | "ok" => pure .ok | "fail" => pure .fail | "raise" => pure .raised | "hang" => pure .hang
   | _ => throw s!"unknown outcome {s}"
 
 def getEvs (j : Json) (k : String) : Except String (List Ev) :=
@@ -48,7 +49,7 @@ def parseIter (j : Json) : Except String Iter := do
 def evName : Ev → String
   | .fin => "fin" | .out c => s!"out:{c}" | .kill => "kill" | .die => "die" | .adv => "adv"
 def outName : Outcome → String
-  | .ok => "ok" | .fail => "fail" | .raised => "raise"
+  | .ok => "ok" | .fail => "fail" | .raised => "raise" | .hang => "hang"
 def opName : Op → String
   | .env e => "e:" ++ evName e
   | .eng o => "g:" ++ outName o
@@ -160,6 +161,27 @@ def weave (s : Sub) (q : List SubOp) : List Op → List COp
 def subOpsOf (es : List CEv) : List SubOp :=
   es.filterMap fun e => match e with | .sub o => some o | _ => none
 
+/-! working directories: `{"op":"dir","ops":[["stagein",[direct],[comp]] | ["write",f], ...]}` -> after every operation
+the sorted output and the sorted inputs -/
+open St4sd.RepeatDir in
+def dirOps (d : Dir) : List Json → Except String (List Json)
+  | [] => pure []
+  | j :: r => do
+    let a ← j.getArr?
+    let kind ← (a[0]?.getD Json.null).getStr?
+    let d' ← match kind with
+      | "stagein" => do
+        let direct ← (← (a[1]?.getD Json.null).getArr?).toList.mapM (fun x => x.getNat?)
+        let comp ← (← (a[2]?.getD Json.null).getArr?).toList.mapM (fun x => x.getNat?)
+        pure (stageIn direct comp [] d)
+      | "write" => do
+        let f ← (a[1]?.getD Json.null).getNat?
+        pure (dstep d (.write f))
+      | _ => throw s!"unknown dir op {kind}"
+    let srt := fun (l : List Nat) => (l.toArray.qsort (· < ·)).toList.map jnat
+    let rest ← dirOps d' r
+    pure (jobj [("output", jarr (srt d'.output)), ("inputs", jarr (srt d'.inputs))] :: rest)
+
 def handle (j : Json) : Except String Json := do
   let op ← getStr j "op"
   match op with
@@ -194,6 +216,9 @@ def handle (j : Json) : Except String Json := do
     let (ss, ops) := runScript cfg (init cfg) its
     let fin := ss.getLast?.getD (init cfg)
     return jobj ([("snaps", jarr (ss.map snap)), ("flat", jarr (ops.map (jstr ∘ opName)))] ++ summary fin)
+  | "dir" =>
+    let ops ← getArr j "ops"
+    return jobj [("steps", jarr (← dirOps St4sd.RepeatDir.Dir.fresh ops))]
   | "flat" =>
     let cfg ← parseCfg j
     let ops ← (← getStrList j "ops").mapM parseOp
